@@ -807,6 +807,9 @@ fn run_preempt(ctx: &mut Ctx, d: &SubjDesc, max_triples: usize) {
     }
     // token exploration for pure subjects (keeps the machinery exercised), full budget otherwise
     let budget = if impure { max_triples } else { 1 };
+    // every preemption point costs a fork: bound the points per subject and say so when the bound is hit
+    let point_cap: u64 = if ctx.thorough() { 120_000 } else { 12_000 };
+    let mut points_total = 0u64;
     let mut triples = 0usize;
     let saved = ctx.case_desc.clone();
     'outer: for a in &a_list {
@@ -829,6 +832,10 @@ fn run_preempt(ctx: &mut Ctx, d: &SubjDesc, max_triples: usize) {
         for p in &prefixes {
             for b in &bs {
                 if triples >= budget {
+                    break 'outer;
+                }
+                if points_total >= point_cap {
+                    ctx.count("preemption_point_cap_hit");
                     break 'outer;
                 }
                 triples += 1;
@@ -854,6 +861,7 @@ fn run_preempt(ctx: &mut Ctx, d: &SubjDesc, max_triples: usize) {
                     unsafe { libc::_exit(if ok { 0 } else { 4 }) };
                 }
                 let pts = POINTS.load(SeqCst);
+                points_total += pts;
                 ctx.evals += pts;
                 ctx.add("preemption_points_explored", pts);
                 ctx.add("schedules", pts);
